@@ -12,7 +12,9 @@ VARIABLE in
 (* deep enough for 2 * MaxComps "..": the name is used twice in the executable's path *)
 Guard == <<"g1", "g2", "g3", "g4", "g5", "g6", "g7", "g8">>
 Roots == {Guard \o <<"plugins">>, Guard \o <<"x", "plugins">>, Guard \o <<"x", "y", "plugins">>}
-AllComps == Comps \cup {"nul", "long"}
+(* "ddsp", "spdd": a dot-dot component padded with white space; "psp": the installed plugin's name with a trailing blank.  As
+   written they are ordinary single components (they are not ".." and not "p") *)
+AllComps == Comps \cup {"nul", "long", "ddsp", "spdd", "psp"}
 Names == [abs : BOOLEAN, comps : UNION {[1..k -> AllComps] : k \in 1..MaxComps}]
 Ops == {"Get", "Uninstall", "InstallFile", "InstallDir", "Verify"}
 (* installing takes the name from the file name notation-<name>: only separator-free names are expressible *)
